@@ -249,12 +249,12 @@ func (e *Executor) rawTx(proposals []*BtcTransferProposal, resource config.Resou
 	if err != nil {
 		return nil, nil, err
 	}
-	if inputAmount < outputAmount {
-		return nil, nil, fmt.Errorf("utxo input amount %d less than output amount %d", inputAmount, outputAmount)
-	}
 	fee, err := e.fee(uint64(len(utxos)), uint64(len(proposals))+1)
 	if err != nil {
 		return nil, nil, err
+	}
+	if inputAmount < outputAmount+fee {
+		return nil, nil, fmt.Errorf("utxo input amount %d less than output amount %d plus fee %d", inputAmount, outputAmount, fee)
 	}
 
 	returnAmount := inputAmount - fee - outputAmount
